@@ -29,7 +29,8 @@ type Scenario struct {
 	// Visit: extra oracle evaluated on every new state (committed); may use the model
 	Visit func(e *Exec) []Disc
 	// AfterTx: extra per-transaction oracle
-	AfterTx func(e *Exec, obs *TxObs, pre, post map[string][]mc.KV) []Disc
+	AfterTx     func(e *Exec, obs *TxObs, pre, post map[string][]mc.KV) []Disc
+	PostProcess func(e *Exec, discs []Disc) []Disc
 	// Annotate adds discrete facts to discrepancies (known-finding signatures)
 	Annotate func(e *Exec, d *Disc, tx *model.Tx)
 	// Setup is run on every fresh world right after genesis (harness-level, e.g. funding by keeper is NOT allowed; only tx prefixes)
@@ -108,7 +109,7 @@ func (s *Scenario) NewExec() *Exec {
 			w.Acct(n)
 		}
 	}
-	e := &Exec{W: w, Tracked: tr, Aux: map[string]int{}, AfterTx: s.AfterTx, Annotate: s.Annotate, Visit: s.Visit}
+	e := &Exec{W: w, Tracked: tr, Aux: map[string]int{}, AfterTx: s.AfterTx, Annotate: s.Annotate, Visit: s.Visit, PostProcess: s.PostProcess}
 	e.M = InitModel(w, tr)
 	if e.Visit != nil {
 		e.InitDiscs = e.Visit(e)
